@@ -4562,6 +4562,9 @@ def _form_to_layout(
             lazy_cache_key,
         )
 
+        if len(mask) != length:
+            mask = _index_form_to_index[form.mask](numpy.asarray(mask)[:length])
+
         return ak.layout.ByteMaskedArray(
             mask, content, form.valid_when, identities, parameters
         )
